@@ -229,12 +229,12 @@ zix_copy_file(ZixAllocator* const  allocator,
   (void)posix_fadvise(dst_fd, 0, src_stat.st_size, POSIX_FADV_SEQUENTIAL);
 #endif
 
-  errno = 0;
-
   // Allocate a block for copying
   const size_t   align      = zix_system_page_size();
   const uint32_t block_size = zix_get_block_size(&src_stat, &dst_stat);
   void* const    block      = zix_aligned_alloc(allocator, align, block_size);
+
+  errno = 0; // Nothing so far is a failure (including a refused block)
 
   // Fall back to using a small stack buffer if allocation is unavailable
   char         stack_buf[512];
